@@ -63,6 +63,8 @@ def expr_str(e, strmode):
         return "{{lt($%s, %d)}}" % (e["x"], e["v"])
     if t == "ge":
         return "{{ge($%s, %d)}}" % (e["x"], e["v"])
+    if t == "sub":
+        return "{{$%s - %d}}" % (e["x"], e["v"])
     if t == "dbl":
         return "$%s$%s" % (e["x"], e["x"])
     raise ValueError(e)
@@ -181,6 +183,15 @@ class Conc:
         if k == "g":
             a = [f'id="n{i}"'] if not n["href"] else [f'id="r{n["href"]}"', (f'class="rc{n["href"]} n{i}"' if n["href"] % 2 == 0 else f'class="n{i}"')]
             a += [f'{x}="{v}"' for x, v in n["loc"]]
+            if n["rd"] != "-" or n["val"] >= 0:
+                # the group's own probe; written after the locals or before them
+                pr = [f'data-v="${n["rd"]}"' if n["rd"] != "-" else f'data-v="{("x" * n["val"]) if self.strmode else n["val"]}"']
+                cls = [x for x in a if x.startswith("class=")]
+                if cls:
+                    a[a.index(cls[0])] = cls[0][:-1] + f' p{i}"'
+                else:
+                    pr.append(f'class="p{i}"')
+                a = (a + pr) if self.rnd.random() < 0.5 else (a[:1] + pr + a[1:])
             if not n["ch"] and self.rnd.random() < 0.5:
                 return f'<g {" ".join(a)}/>{nl}'
             return f'<g {" ".join(a)}>{kids}</g>{nl}'
@@ -273,11 +284,13 @@ def project_items(out, strmode, scales=None):
     root = vlib.parse_fragment(out)
     items = []
     for el in vlib.elements(root):
-        if el.name not in ("rect", "circle"):
+        if el.name not in ("rect", "circle", "g"):
             continue
         for c in el.classes():
             if c.startswith("p") and c[1:].isdigit():
-                if el.name == "circle":
+                if el.name == "g":
+                    x = 0
+                elif el.name == "circle":
                     x = vlib.fnum(el.attrs.get("cx", "0")) - vlib.fnum(el.attrs.get("r", "0"))
                 else:
                     x = vlib.fnum(el.attrs.get("x", "0"))
